@@ -842,3 +842,131 @@ pub fn t8() -> BoxedStrategy<Value> {
         })
         .boxed()
 }
+
+/// T9: a pointer is moved from a live cell into a node that dies by *cascade* (not as a root) with
+/// a stamp that lags by one epoch; a reader loaded the pointer from the live cell before the move.
+/// In this situation the link's timestamp is the only thing that protects the reader.
+/// G.edge0 -> H (H.edge0 empty), H also owned by hA (writer W) and hB (lagging dropper T2);
+/// root1 -> P. M = setup and collector.
+pub fn t9() -> BoxedStrategy<Value> {
+    (
+        0u8..48,
+        (0usize..5, 0u8..3, 0u8..3, 0u8..3, 0u8..7),
+        (0u8..4, any::<bool>(), 0u8..8, any::<bool>(), any::<bool>(), 0u8..3),
+    )
+        .prop_map(|(align, (site_i, a, b, c, settle), (install, retag, tag, g_finalize, link_stamped, t2_resume))| {
+            const SITES: [u32; 5] = [site::DEC_S_LOAD, site::EPOCH_LOADED, site::DEC_S_CAS, 0, site::EPOCH_LOAD];
+            let park = SITES[site_i];
+            let (m, t2, w, r) = (0usize, 1usize, 2usize, 3usize);
+            let mut t = TB::new(4);
+            // setup by M
+            t.new_node(m, "P", None, None, 3, 60);
+            t.new_node(m, "H", None, None, 3, 20);
+            t.pin(m);
+            t.store(m, C::Root(1), Some("P"), 0);
+            t.clone_rc(m, "H", "hA");
+            t.store(m, C::Root(2), Some("hA"), 0);
+            t.clone_rc(m, "H", "hB");
+            t.store(m, C::Root(3), Some("hB"), 0);
+            if link_stamped {
+                t.new_node(m, "G", None, None, 3, 1);
+                t.store(m, C::Edge("G", 0), Some("H"), 0);
+            } else {
+                t.new_node(m, "G", Some("H"), None, 3, 0);
+                t.drop_rc(m, "H");
+            }
+            t.unpin(m, 0);
+            t.advance(m, settle);
+            t.run(m);
+            // hand hA to W and hB to T2
+            t.pin(w);
+            t.load(w, C::Root(2), 0, "x");
+            t.counted(w, "x", "hA");
+            t.unpin(w, 0);
+            t.run(w);
+            t.pin(t2);
+            t.load(t2, C::Root(3), 0, "x");
+            t.counted(t2, "x", "hB");
+            t.unpin(t2, 0);
+            t.run(t2);
+            t.pin(m);
+            t.store(m, C::Root(2), None, 0);
+            t.store(m, C::Root(3), None, 0);
+            t.unpin(m, 0);
+            t.advance(m, 3);
+            t.run(m);
+            // e0: T2 starts releasing hB inside a critical section and is parked after the epoch read
+            t.pin(t2);
+            t.run(t2);
+            t.finalize(t2, "hB", 0);
+            t.run_until_site(t2, park, 1);
+            // M releases G (its destruction is sealed at e0)
+            if g_finalize {
+                t.pin(m);
+                t.finalize(m, "G", 0);
+                t.raw(m, crate::rcworld::K::Flush, 0, 0, 0);
+                t.unpin(m, 0);
+            } else {
+                t.drop_rc(m, "G");
+                t.advance(m, 0);
+            }
+            t.run(m);
+            t.advance(m, a);
+            t.run(m);
+            // W: pins, keeps a Snapshot of H, gives up its Rc
+            t.pin(w);
+            t.rc_snapshot(w, "hA", 0, "sH");
+            t.drop_rc(w, "hA");
+            t.run(w);
+            if t2_resume == 0 {
+                t.unpin(t2, 0);
+                t.run(t2);
+            }
+            t.advance(m, b);
+            t.run(m);
+            if t2_resume == 1 {
+                t.unpin(t2, 0);
+                t.run(t2);
+            }
+            // R pins and loads P from the live cell
+            t.pin(r);
+            t.load(r, C::Root(1), 0, "sP");
+            t.run(r);
+            // W moves P from the live cell into H
+            t.load(w, C::Root(1), 0, "e");
+            t.swap_null(w, C::Root(1), "p");
+            match install {
+                0 => t.store(w, C::Edge("sH", 0), Some("p"), 0),
+                1 => {
+                    t.swap(w, C::Edge("sH", 0), "p", "0old");
+                }
+                2 => t.cas(w, C::Edge("sH", 0), None, Some("p"), true, "0prev", "cur"),
+                _ => {
+                    t.store(w, C::Edge("sH", 1), Some("p"), 0);
+                }
+            }
+            if retag {
+                // re-tag the link using the Snapshot loaded from the old location
+                t.cas_tag(w, C::Edge("sH", if install == 3 { 1 } else { 0 }), "e", tag, "rt");
+            }
+            t.unpin(w, 0);
+            t.run(w);
+            if t2_resume == 2 {
+                t.unpin(t2, 0);
+                t.run(t2);
+            }
+            // collection: G as a root, H and P through the cascade
+            t.advance(m, 1 + c);
+            t.run(m);
+            t.deref_s(r, "sP");
+            t.counted(r, "sP", "Pr");
+            t.deref(r, "Pr");
+            t.unpin(r, 0);
+            t.drop_rc(r, "Pr");
+            t.run(r);
+            t.advance(m, 5);
+            t.run(m);
+            t.finish(align, "T9")
+        })
+        .boxed()
+}
